@@ -34,16 +34,24 @@ void verif_nolog (void) { }
 #include "env_stubs.h"
 
 /* E1 model of psf_binheader_readf for the format characters the simple parsers use */
+#ifdef READ_BUDGET
+int g_reads ;		/* bounded stand-in for chunk-loop parsers: the file ends after READ_BUDGET header reads */
+#endif
 int verif_readf (SF_PRIVATE *psf, const char *fmt, int nargs, const uint64_t *args)
 {	int k, a = 0, bytes = 0 ;
+#ifdef READ_BUDGET
+	if (g_reads >= READ_BUDGET) return 0 ;		/* end of file: nothing delivered, destinations keep their content */
+	g_reads ++ ;
+#endif
 	for (k = 0 ; k < 8 && fmt [k] != 0 ; k++)
 	{	char c = fmt [k] ;
 		int sz = 0 ;
 		if (c == 'e' || c == 'E' || c == ' ') continue ;
 		__CPROVER_assert (a < nargs, "E1 readf model: argument count matches the format string") ;
-		if (c == 'p' || c == 'j' || c == 'o') { a ++ ; continue ; }		/* position / skip: an integer argument */
+		if (c == 'p' || c == 'j' || c == 'o' || c == '!') { if (c != '!') a ++ ; continue ; }		/* position / skip: an integer argument */
 		if (c == '1') sz = 1 ; else if (c == '2') sz = 2 ; else if (c == '3' || c == '4' || c == 'm') sz = 4 ;
 		else if (c == '8') sz = 8 ; else if (c == 'f') sz = 4 ; else if (c == 'd') sz = 8 ;
+		else if (c == 'h') sz = 16 ;
 		else if (c == 'b')
 		{	__CPROVER_assert (a + 1 < nargs, "E1 readf model: raw block has a size argument") ;
 			size_t n = (size_t) args [a + 1] ;
@@ -62,7 +70,11 @@ int verif_readf (SF_PRIVATE *psf, const char *fmt, int nargs, const uint64_t *ar
 
 /* E1 strstr: the parsers only compare the result with the start of the haystack (banner checks) */
 char * strstr (const char *h, const char *n) { _Bool at_start_nd ; return at_start_nd ? (char *) h : NULL ; }
+#ifdef READ_BUDGET
+sf_count_t psf_ftell (SF_PRIVATE *psf) { sf_count_t nd ; if (g_reads >= READ_BUDGET) return psf->filelength ; return nd ; }
+#else
 sf_count_t psf_ftell (SF_PRIVATE *psf) { sf_count_t nd ; return nd ; }
+#endif
 sf_count_t psf_fseek (SF_PRIVATE *psf, sf_count_t offset, int whence) { sf_count_t nd ; return nd ; }
 sf_count_t psf_get_filelen (SF_PRIVATE *psf) { sf_count_t nd ; return nd ; }
 sf_count_t psf_fread (void *ptr, sf_count_t bytes, sf_count_t items, SF_PRIVATE *psf)
@@ -70,8 +82,21 @@ sf_count_t psf_fread (void *ptr, sf_count_t bytes, sf_count_t items, SF_PRIVATE 
 	sf_count_t nd ; __CPROVER_assume (0 <= nd && nd <= items) ; return nd ;
 }
 
+#ifndef LINKS_COMMON
+int psf_isprint (int ch) { return (ch >= ' ' && ch <= '~') ; }		/* as in common.c (not linked in this unit) */
+#endif
+
 static unsigned char hbuf [256] ;
 static SF_PRIVATE P ;
+#ifdef AIFF_WRAPPER
+static AIFF_PRIVATE aiff_priv ;
+static int aiff_read_header_h (SF_PRIVATE *psf)
+{	COMM_CHUNK comm ;
+	memset (&comm, 0, sizeof (comm)) ;
+	psf->container_data = &aiff_priv ;		/* as aiff_open sets it up (calloc'ed) */
+	return aiff_read_header (psf, &comm) ;
+}
+#endif
 
 void h_parser (void)
 {	sf_count_t fl, fo ; int mode_nd ;
